@@ -419,6 +419,10 @@ func (c *clientHello) parseExtensions() error {
 				}
 				c.echExt.Payload = slices.Clone(v)
 			}
+			// marshalAAD locates the payload at the end of the extension.
+			if !data.Empty() {
+				return fmt.Errorf("%w: trailing data in ech ext", ErrDecodeError)
+			}
 		}
 	}
 	return nil
